@@ -242,6 +242,7 @@ class Spec:
         out.append(("roundtrip",))
         if st.saved_path is not None:
             out.append(("restore",))
+            out.append(("restore", "iter"))  # the path handed over as a one-shot iterator (the parameter is an Iterable)
         if getattr(st, "depth", 0) <= (0 if self.tier == "quick" else 1):
             # two inputs handled in one main-loop pass: no render between an assignment / deletion and the next event
             firsts = [o for o in out if (o[0] == "focus" and o[2] != "bogus" and not (isinstance(o[2], int) and o[2] < 0)) or o[0] == "del"]
@@ -491,7 +492,7 @@ class Spec:
                     break
                 w = kids[poss.index(p)]
             try:
-                root.set_focus_path(path)
+                root.set_focus_path(iter(path) if len(op) > 1 else path)
             except IndexError:
                 if ok:
                     V("path-roundtrip", f"set_focus_path({path!r}) raised IndexError although every position is valid")
